@@ -353,7 +353,7 @@ def probe_set(geo):
 
 
 def fill_sets(keys, maxn):
-    ws = [1.0, 2.0, 4.0]
+    ws = [0.75, 2.0, 0.25]  # (fractional: a grid of integers would truncate them)
     out = [[]]
     for n in range(1, maxn + 1):
         for combo in itertools.combinations(keys, n):
@@ -574,7 +574,7 @@ def _twod(task):
     kx = {"Bin": lambda c: list(range(c[0]))[:3] + ["out"], "SparselyBin": lambda c: [-1, 0, 2],
           "IrregularlyBin": lambda c: list(range(len(c) + 1))}[kind]
     cells = list(itertools.product(kx(cfgx), kx(cfgy)))
-    ws = [1.0, 2.0, 4.0]
+    ws = [0.75, 2.0, 0.25]  # (fractional: a grid of integers would truncate them)
     maxn = 2 if tier == "quick" else 3
     for n in range(0, maxn + 1):
         for combo in itertools.combinations(cells, n):
@@ -589,7 +589,7 @@ def _twod(task):
 def _cat(task):
     acc = FW.Acc()
     menu = ["a", "b", "", True, None, "NaN"]
-    ws = [1.0, 2.0, 4.0]
+    ws = [0.75, 2.0, 0.25]  # (fractional: a grid of integers would truncate them)
     for n in range(0, 4):
         for combo in itertools.product(menu, repeat=n):
             acc.add(check_categorize([(l, ws[i]) for i, l in enumerate(combo)]))
